@@ -26,15 +26,21 @@ type fakeRT struct {
 }
 
 func (f *fakeRT) RoundTrip(req *http.Request) (*http.Response, error) {
-	q, err := base64.RawURLEncoding.DecodeString(req.URL.Query().Get("dns"))
-	if err != nil {
-		return nil, err
-	}
+	// A real http.Transport (h1, h2, h3) reads the request URL only after it has
+	// obtained a connection or stream slot: model that wait before looking at it.
 	c, err := f.n.Dial(req.Context(), "udp", dohAddr)
 	if err != nil {
 		return nil, err
 	}
 	defer c.Close()
+	if simrt.Choose(3) == 0 {
+		simrt.Sleep(0, time.Duration(1+simrt.Choose(20))*time.Millisecond)
+		simrt.Fault("doh_wait_for_conn")
+	}
+	q, err := base64.RawURLEncoding.DecodeString(req.URL.Query().Get("dns"))
+	if err != nil {
+		return nil, err
+	}
 	if dl, ok := req.Context().Deadline(); ok {
 		c.SetReadDeadline(dl)
 	}
